@@ -13,6 +13,7 @@ package agent
 // domain names are resolved by a fake DNS server of the harness (exit.dns.servers) or /etc/hosts (localhost).
 
 import (
+	"context"
 	"encoding/binary"
 	"fmt"
 	"net"
@@ -27,6 +28,7 @@ import (
 	"github.com/postalsys/muti-metroo/internal/config"
 	"github.com/postalsys/muti-metroo/internal/crypto"
 	"github.com/postalsys/muti-metroo/internal/protocol"
+	"github.com/postalsys/muti-metroo/internal/transport"
 )
 
 type zzvEPDest struct {
@@ -99,33 +101,16 @@ type zzvSink struct {
 type zzvEPEnv struct {
 	t     *testing.T
 	meta  zzvEPMeta
-	sinks map[string]*zzvSink // ip key -> listener
+	m     *zzvMesh
+	mmu   sync.Mutex // guards m.Add (paths run in parallel on their own agents of one mesh)
+	nrun  atomic.Int64
 	dns   *net.UDPConn
 	names map[string]string // lower-case name -> IPv4 address
 	cidr2 map[string]string // CIDR string -> net id
 }
 
 func zzvEPNewEnv(t *testing.T, meta zzvEPMeta) *zzvEPEnv {
-	e := &zzvEPEnv{t: t, meta: meta, sinks: map[string]*zzvSink{}, names: map[string]string{}, cidr2: map[string]string{}}
-	for key, addr := range meta.Ips {
-		l, err := net.Listen("tcp", net.JoinHostPort(addr, "0"))
-		if err != nil {
-			t.Fatalf("exitpolicy: cannot listen on %s: %v", addr, err)
-		}
-		s := &zzvSink{key: key, l: l, port: uint16(l.Addr().(*net.TCPAddr).Port)}
-		e.sinks[key] = s
-		go func() {
-			for {
-				c, err := l.Accept()
-				if err != nil {
-					return
-				}
-				s.n.Add(1)
-				c.Close()
-			}
-		}()
-		t.Cleanup(func() { l.Close() })
-	}
+	e := &zzvEPEnv{t: t, meta: meta, m: zzvNewMesh(t), names: map[string]string{}, cidr2: map[string]string{}}
 	// the membership table of the spec must agree with net.IPNet.Contains on the real values
 	for nid, cidr := range meta.Nets {
 		_, ipn, err := net.ParseCIDR(cidr)
@@ -213,9 +198,33 @@ func (e *zzvEPEnv) serveDNS() {
 	}
 }
 
-func (e *zzvEPEnv) counts() map[string]int64 {
+// newSinks binds one listener per address of the universe (own set per run, so that an accept is attributable).
+func (e *zzvEPEnv) newSinks() map[string]*zzvSink {
+	sinks := map[string]*zzvSink{}
+	for key, addr := range e.meta.Ips {
+		l, err := net.Listen("tcp", net.JoinHostPort(addr, "0"))
+		if err != nil {
+			e.t.Fatalf("exitpolicy: cannot listen on %s: %v", addr, err)
+		}
+		s := &zzvSink{key: key, l: l, port: uint16(l.Addr().(*net.TCPAddr).Port)}
+		sinks[key] = s
+		go func() {
+			for {
+				c, err := l.Accept()
+				if err != nil {
+					return
+				}
+				s.n.Add(1)
+				c.Close()
+			}
+		}()
+	}
+	return sinks
+}
+
+func (r *zzvEPRun) counts() map[string]int64 {
 	m := map[string]int64{}
-	for k, s := range e.sinks {
+	for k, s := range r.sinks {
 		m[k] = s.n.Load()
 	}
 	return m
@@ -224,12 +233,13 @@ func (e *zzvEPEnv) counts() map[string]int64 {
 // ---- one real agent + puppet per path --------------------------------------------------------------------
 
 type zzvEPRun struct {
-	e   *zzvEPEnv
-	m   *zzvMesh
-	x   *Agent
-	p   *zzvPuppet
-	sid uint64
-	mu  sync.Mutex
+	e     *zzvEPEnv
+	m     *zzvMesh
+	name  string
+	x     *Agent
+	p     *zzvPuppet
+	sid   uint64
+	sinks map[string]*zzvSink // ip key -> listener
 }
 
 func (e *zzvEPEnv) newRun(cfgName string) *zzvEPRun {
@@ -237,21 +247,39 @@ func (e *zzvEPEnv) newRun(cfgName string) *zzvEPRun {
 	if !ok {
 		e.t.Fatalf("exitpolicy: unknown configuration %q", cfgName)
 	}
-	m := zzvNewMesh(e.t)
-	m.Add(zzvNodeSpec{Name: "X", Listen: true, Mut: func(cc *config.Config) {
-		cc.Exit.Enabled = c.Enabled
-		for _, n := range c.Nets {
-			cc.Exit.Routes = append(cc.Exit.Routes, e.meta.Nets[n])
-		}
-		for _, p := range c.Doms {
-			cc.Exit.DomainRoutes = append(cc.Exit.DomainRoutes, e.meta.Patterns[p].Text)
-		}
-		cc.Exit.DNS.Servers = []string{e.dns.LocalAddr().String()}
-		cc.Exit.DNS.Timeout = 3 * time.Second
-	}})
-	m.Start("X")
-	r := &zzvEPRun{e: e, m: m, x: m.Nodes["X"].A, sid: 1}
-	r.p = m.DialPuppet("P", "X")
+	m := e.m
+	name := fmt.Sprintf("X%d", e.nrun.Add(1))
+	// like zzvMesh.Add, but only the registration is serialised (agents of parallel paths are built concurrently)
+	cc := m.BaseConfig(name)
+	cc.Listeners = []config.ListenerConfig{{Transport: "ws", Address: zzvAddrOf(name), Path: "/m", PlainText: true}}
+	cc.Exit.Enabled = c.Enabled
+	for _, n := range c.Nets {
+		cc.Exit.Routes = append(cc.Exit.Routes, e.meta.Nets[n])
+	}
+	for _, p := range c.Doms {
+		cc.Exit.DomainRoutes = append(cc.Exit.DomainRoutes, e.meta.Patterns[p].Text)
+	}
+	cc.Exit.DNS.Servers = []string{e.dns.LocalAddr().String()}
+	cc.Exit.DNS.Timeout = 3 * time.Second
+	if err := os.MkdirAll(cc.Agent.DataDir, 0o700); err != nil {
+		e.t.Fatal(err)
+	}
+	x, err := New(cc)
+	if err != nil {
+		e.t.Fatalf("exitpolicy: agent.New: %v", err)
+	}
+	tr := &zzvTransport{net: m.Net, owner: name}
+	x.transports[transport.TransportWebSocket] = tr
+	e.mmu.Lock()
+	m.Nodes[name] = &zzvNode{Name: name, A: x, Addr: zzvAddrOf(name), Cfg: cc, Trans: tr}
+	m.order = append(m.order, name)
+	e.mmu.Unlock()
+	m.byPtr.Store(x, name)
+	if err := x.Start(); err != nil {
+		e.t.Fatalf("exitpolicy: start: %v", err)
+	}
+	r := &zzvEPRun{e: e, m: m, name: name, x: x, sid: 1, sinks: e.newSinks()}
+	r.p = m.DialPuppet("P"+name, name)
 	if !zzvWaitFor(5*time.Second, func() bool { return r.x.peerMgr.GetPeer(r.p.ID) != nil }) {
 		e.t.Fatal("exitpolicy: puppet not registered")
 	}
@@ -260,8 +288,13 @@ func (e *zzvEPEnv) newRun(cfgName string) *zzvEPRun {
 
 func (r *zzvEPRun) stop() {
 	r.p.Close()
-	r.m.StopAll()
-	os.RemoveAll(r.m.dir)
+	ctx, cancel := context.WithTimeout(context.Background(), 5*time.Second)
+	r.x.StopWithContext(ctx)
+	cancel()
+	for _, s := range r.sinks {
+		s.l.Close()
+	}
+	os.RemoveAll(r.m.dir + "/" + r.name)
 }
 
 func (r *zzvEPRun) project() (st zzvEPState, locals []string, unknown []string) {
@@ -332,7 +365,7 @@ func (r *zzvEPRun) open(d zzvEPDest) zzvEPOpenObs {
 	var at uint8
 	var ab []byte
 	port := uint16(9) // unresolvable names: any port
-	if s, ok := e.sinks[d.IP]; ok {
+	if s, ok := r.sinks[d.IP]; ok {
 		port = s.port
 	}
 	switch d.Kind {
@@ -352,12 +385,12 @@ func (r *zzvEPRun) open(d zzvEPDest) zzvEPOpenObs {
 	}
 	r.sid += 2
 	sid := r.sid
-	before := e.counts()
+	before := r.counts()
 	nrecv := len(r.p.Received())
-	done0 := r.m.Net.DoneCount("X")
+	done0 := r.m.Net.DoneCount(r.name)
 	so := &protocol.StreamOpen{RequestID: sid + 1000, AddressType: at, Address: ab, Port: port, EphemeralPubKey: pub}
 	r.p.Send(&protocol.Frame{Type: protocol.FrameStreamOpen, StreamID: sid, Payload: so.Encode()})
-	if !zzvWaitFor(10*time.Second, func() bool { return r.m.Net.DoneCount("X") > done0 }) {
+	if !zzvWaitFor(10*time.Second, func() bool { return r.m.Net.DoneCount(r.name) > done0 }) {
 		e.t.Fatalf("exitpolicy: agent never processed the STREAM_OPEN for %q", d.Addr)
 	}
 	var obs zzvEPOpenObs
@@ -381,7 +414,7 @@ func (r *zzvEPRun) open(d zzvEPDest) zzvEPOpenObs {
 		}
 		if reply.Type == protocol.FrameStreamOpenAck {
 			obs.Res = "dial"
-			want := e.sinks[d.IP]
+			want := r.sinks[d.IP]
 			if want != nil {
 				zzvWaitFor(2*time.Second, func() bool { return want.n.Load() > before[d.IP] })
 			}
@@ -404,7 +437,7 @@ func (r *zzvEPRun) open(d zzvEPDest) zzvEPOpenObs {
 			time.Sleep(2 * time.Millisecond) // a connection made before the error reply would be accepted by now
 		}
 	}
-	after := e.counts()
+	after := r.counts()
 	var dialed []string
 	for k, v := range after {
 		if v > before[k] {
@@ -451,19 +484,52 @@ func TestZZVExitPolicyReplay(t *testing.T) {
 	zzvLoad(t, "ZZV_IN", &in)
 	corrupt := os.Getenv("ZZV_CORRUPT") // binding self-test: falsify one expected value
 	e := zzvEPNewEnv(t, in.Meta)
-	steps, opens, mism := 0, 0, 0
+	var steps, opens, mism atomic.Int64
+	var omu sync.Mutex
 	outcomes := map[string]int{}
 	t0 := time.Now()
-	for pi, path := range in.Paths {
+	par := zzvEnvInt("ZZV_PAR", 8)
+	jobs := make(chan int)
+	var wg sync.WaitGroup
+	for w := 0; w < par; w++ {
+		wg.Add(1)
+		go func() {
+			defer wg.Done()
+			for pi := range jobs {
+				s, o, mm := e.replayPath(pi, in.Paths[pi], corrupt, func(k string) {
+					omu.Lock()
+					outcomes[k]++
+					omu.Unlock()
+				})
+				steps.Add(int64(s))
+				opens.Add(int64(o))
+				mism.Add(int64(mm))
+			}
+		}()
+	}
+	for pi := range in.Paths {
+		jobs <- pi
+	}
+	close(jobs)
+	wg.Wait()
+	zzvEmit("summary", map[string]any{"paths": len(in.Paths), "steps": steps.Load(), "opens": opens.Load(),
+		"mismatches": mism.Load(), "outcomes": outcomes, "ms": time.Since(t0).Milliseconds(), "parallel": par})
+}
+
+// replayPath executes one path on a fresh real agent.
+func (e *zzvEPEnv) replayPath(pi int, path zzvEPPath, corrupt string, outcome func(string)) (steps, opens, mism int) {
+	t := e.t
+	meta := e.meta
+	{
 		r := e.newRun(path.Init.Cfg)
+		defer r.stop()
 		st, _, unknown := r.project()
 		dynOK, allowOK, hOK := zzvEPSameState(st, path.Init)
 		if !(dynOK && allowOK && hOK) || len(unknown) > 0 {
 			mism++
 			zzvEmit("mismatch", map[string]any{"path": pi, "tag": path.Tag, "step": -1, "class": "state", "real": st, "spec_t": path.Init,
 				"unknown": unknown})
-			r.stop()
-			continue
+			return
 		}
 		var hist []string
 		diverged := false
@@ -496,7 +562,7 @@ func TestZZVExitPolicyReplay(t *testing.T) {
 				res, err := r.x.ManageRoute("list", "", 0)
 				realRes = zzvEPManageClass(err)
 				listed = map[string]int{}
-				for n := range in.Meta.Nets {
+				for n := range meta.Nets {
 					listed[n] = 0
 				}
 				if res != nil {
@@ -512,20 +578,20 @@ func TestZZVExitPolicyReplay(t *testing.T) {
 				case "remove-bad-cidr":
 					_, err = r.x.ManageRoute("remove", "not-a-network", 0)
 				case "unknown-action":
-					_, err = r.x.ManageRoute("flush", in.Meta.Nets["n1"], 0)
+					_, err = r.x.ManageRoute("flush", meta.Nets["n1"], 0)
 				default:
 					t.Fatalf("exitpolicy: unknown bad-request kind %q", a.Kind)
 				}
 				realRes = zzvEPManageClass(err)
 			case "Open":
-				d, ok := in.Meta.Dests[a.Dest]
+				d, ok := meta.Dests[a.Dest]
 				if !ok {
 					t.Fatalf("exitpolicy: unknown destination %q", a.Dest)
 				}
 				obs = r.open(d)
 				realRes = obs.Res
 				opens++
-				outcomes[a.Kind+":"+obs.Res]++
+				outcome(a.Kind + ":" + obs.Res)
 			default:
 				t.Fatalf("exitpolicy: unknown action %q", a.Act)
 			}
@@ -570,7 +636,7 @@ func TestZZVExitPolicyReplay(t *testing.T) {
 			// 2. the projected state
 			dynOK, allowOK, hOK := zzvEPSameState(now, sp.T)
 			wantLocals := map[string]bool{}
-			for _, n := range in.Meta.Configs[path.Init.Cfg].Nets {
+			for _, n := range meta.Configs[path.Init.Cfg].Nets {
 				wantLocals[n] = true
 			}
 			for n, mtr := range sp.T.Dyn {
@@ -600,9 +666,48 @@ func TestZZVExitPolicyReplay(t *testing.T) {
 				rec["class"] = "allow"
 				zzvEmit("mismatch", rec)
 			}
+			if diverged {
+				// After a divergence every route operation is followed by a sweep over the IP destinations; their
+				// oracle is computed here from the statement: permitted iff the address lies in a configured network
+				// or in a dynamic network that the routing manager holds (compared with the spec above).
+				present := map[string]bool{}
+				for _, n := range meta.Configs[path.Init.Cfg].Nets {
+					present[n] = true
+				}
+				for n, mtr := range now.Dyn {
+					if mtr != 0 {
+						present[n] = true
+					}
+				}
+				ids := make([]string, 0, len(meta.Dests))
+				for id, d := range meta.Dests {
+					if d.Kind == "v4" || d.Kind == "v6" {
+						ids = append(ids, id)
+					}
+				}
+				sort.Strings(ids)
+				for _, id := range ids {
+					d := meta.Dests[id]
+					permitted := false
+					for n := range present {
+						for _, k := range meta.Covers[n] {
+							if k == d.IP {
+								permitted = true
+							}
+						}
+					}
+					o := r.open(d)
+					opens++
+					outcome(d.Kind + ":" + o.Res)
+					if (o.Res == "dial" || o.Res == "dialfail" || o.Res == "dial-wrong-target") && !permitted {
+						mism++
+						zzvEmit("mismatch", map[string]any{"path": pi, "tag": path.Tag, "step": si, "class": "overpermit", "cfg": path.Init.Cfg,
+							"a": zzvEPAct{Act: "Open", Dest: id, Kind: d.Kind, Addr: d.Addr, IP: d.IP, Res: "refuse"}, "spec_res": "refuse",
+							"real_res": o.Res, "obs": o, "real_t": now, "spec_t": sp.T, "hist": append([]string{}, hist...), "sweep": true})
+					}
+				}
+			}
 		}
-		r.stop()
 	}
-	zzvEmit("summary", map[string]any{"paths": len(in.Paths), "steps": steps, "opens": opens, "mismatches": mism,
-		"outcomes": outcomes, "ms": time.Since(t0).Milliseconds()})
+	return
 }
